@@ -10,6 +10,7 @@ fn main() {
         ("c17", "replay") => yv::c17::replay(&args),
         ("c14", "record") => yv::c14::record(&args),
         ("c14", "replay") => yv::c14::replay(&args),
+        ("c15", "record") => yv::c15::record(&args),
         _ => { eprintln!("unknown command {:?}", &a[..2]); std::process::exit(2); }
     }
 }
